@@ -35,7 +35,13 @@ def tasks(tier, seed):
         func("bt.core.HedgeSecurity.update"),
         func("bt.core.CouponPayingHedgeSecurity.update"),
         dict(kind="custom", module="props.lemmas", fn="c08_security_update_idempotent"),
+        dict(kind="custom", module="props.bounded", fn="run_script", script="c08_reads", seed=seed, n=25 if tier == "quick" else 600, props=["C08"]),
     ]
+
+
+def post(results, tier, seed):
+    b = [r["bounded"] for r in results if r.get("bounded")]
+    return None, dict(bounded_stand_ins=b, bounded_note="deep copies of real trees read as is / after an update / after redundant updates, compared byte for byte; never counted in obligations/discharged")
 
 
 def replay(o):
